@@ -216,6 +216,11 @@ func c20proj(t *c20trace) string {
 
 // c20run evaluates one chain twice and judges both evaluations.
 func c20run(r *core.Run, wl string, idx int, chain []*c20variant, t *c20trace) bool {
+	return c20runCk(r, wl, idx, chain, t) != nil
+}
+
+// c20runCk is c20run returning the evaluated checker (nil after a violation).
+func c20runCk(r *core.Run, wl string, idx int, chain []*c20variant, t *c20trace) *checker.Checker {
 	ck := &checker.Checker{}
 	t.ev = t.ev[:0]
 	for i, v := range chain {
@@ -223,25 +228,25 @@ func c20run(r *core.Run, wl string, idx int, chain []*c20variant, t *c20trace) b
 	}
 	if ck.StepCount() != len(chain) {
 		c20violate(r, wl, idx, chain, "step_count", fmt.Sprintf("StepCount=%d for %d steps", ck.StepCount(), len(chain)))
-		return false
+		return nil
 	}
 	got := ck.CheckFailed()
 	if cl, why := c20judge(chain, t, got); cl != "" {
 		c20violate(r, wl, idx, chain, cl, why)
-		return false
+		return nil
 	}
 	p1 := c20proj(t)
 	t.ev = t.ev[:0]
 	got2 := ck.CheckFailed()
 	if cl, why := c20judge(chain, t, got2); cl != "" {
 		c20violate(r, wl, idx, chain, "reevaluation/"+cl, why)
-		return false
+		return nil
 	}
 	if got2 != got || c20proj(t) != p1 {
 		c20violate(r, wl, idx, chain, "reevaluation", fmt.Sprintf("first %v %s, second %v %s", got, p1, got2, c20proj(t)))
-		return false
+		return nil
 	}
-	return true
+	return ck
 }
 
 func c20violate(r *core.Run, wl string, idx int, chain []*c20variant, clause, why string) {
@@ -258,7 +263,7 @@ func init() {
 		TimeoutQuick: 5 * time.Minute, TimeoutThorough: 30 * time.Minute,
 		Build: func(c *Ctx) []core.Workload {
 			r := c.Run
-			r.Rule = "every sequence over the (step kind, outcome) variants up to the stated length is built with the real checker from instrumented closures, evaluated twice, and its trace compared with a reference interpreter; plus random longer chains with random strings and bounds. Distinct = pairwise different sequences (by construction for the enumeration, by hash for random chains); non-trivial = length >= 2."
+			r.Rule = "every sequence over the (step kind, outcome) variants up to the stated length is built with the real checker from instrumented closures, evaluated twice, and its trace compared with a reference interpreter; plus random longer chains with random strings and bounds, each evaluated four more times on the same checker after the outcomes of its steps were changed (re-drawn, all passing, exactly one failing, all passing). Distinct = pairwise different sequences (by construction for the enumeration, by hash for random chains); non-trivial = length >= 2."
 			r.Assume("the number of times a step reads its own value is not constrained")
 			variants := append([]c20variant{}, c20core...)
 			maxLen := 4
@@ -328,7 +333,20 @@ func init() {
 						chain[i] = v
 						fmt.Fprintf(&sig, "%d:%q:%v:%d:%d:%q:%v:%v|", v.kind, v.val, v.vals, v.min, v.max, v.equal, v.cond, v.logErr)
 					}
-					c20run(r, "random", idx, chain, t)
+					if ck := c20runCk(r, "random", idx, chain, t); ck != nil {
+						// the same checker is evaluated again after the outcomes of its steps changed: the verdict is a
+						// function of the steps' present outcomes only (nothing is remembered from earlier evaluations)
+						for h := 0; h < 4; h++ {
+							c20mutate(rng, chain, h)
+							t.ev = t.ev[:0]
+							got := ck.CheckFailed()
+							if cl, why := c20judge(chain, t, got); cl != "" {
+								c20violate(r, "random", idx, chain, "history/"+cl, fmt.Sprintf("evaluation %d of one checker after its steps' outcomes changed: %s", h+3, why))
+								break
+							}
+							r.Count("evaluations_after_outcome_change", 1)
+						}
+					}
 					if L >= 2 {
 						r.Eval(sig.String())
 					} else {
@@ -346,9 +364,53 @@ func init() {
 			}}
 			r.Require("chains_enumerated", 1000)
 			r.Require("random_chains", 1000)
+			r.Require("evaluations_after_outcome_change", 1000)
 			return []core.Workload{enum, rnd}
 		},
 	})
+}
+
+// c20mutate changes the outcomes of the steps of a built chain in place (the closures read the variants):
+// mode 0 re-draws every step, mode 1 and 3 make every step pass, mode 2 makes exactly one step fail.
+func c20mutate(rng *rand.Rand, chain []*c20variant, mode int) {
+	// min and max are handed to the checker by value when the step is built, so they stay as they are
+	pass := func(v *c20variant) {
+		n := 1
+		if v.min > 0 {
+			n = v.min
+		}
+		if v.max > 0 && n > v.max {
+			n = v.max
+		}
+		v.val = strings.Repeat("k", n)
+		v.equal, v.vals, v.cond, v.logErr = v.val, []string{"a"}, true, false
+	}
+	switch mode {
+	case 0:
+		for _, v := range chain {
+			k, mn, mx := v.kind, v.min, v.max
+			*v = *c20random(rng)
+			v.kind, v.min, v.max = k, mn, mx
+		}
+	case 2:
+		for _, v := range chain {
+			pass(v)
+		}
+		cands := []*c20variant{}
+		for _, v := range chain {
+			if v.kind != 8 {
+				cands = append(cands, v)
+			}
+		}
+		if len(cands) > 0 {
+			v := cands[rng.Intn(len(cands))]
+			v.val, v.vals, v.equal, v.logErr = "", []string{"a", "", ""}, "other", true
+		}
+	default:
+		for _, v := range chain {
+			pass(v)
+		}
+	}
 }
 
 func c20random(rng *rand.Rand) *c20variant {
